@@ -14,6 +14,10 @@ Union/Intersect/Sub/Xor is executed by the harness (go/cmd/c05), which appends t
                 cell check, N^2 cells per call); 100-400-gons (regular, perturbed, elliptic, rings), the polygons
                 poly.FromEllipse / poly.FromRect themselves produce, against each other and against small polygons, in
                 general position (margins 1/2), 100 sample points per call, Lean margin 1/8;
+  chain         3-5 calls per line on lattice polygons: operands are initial polygons or the polygons RETURNED by earlier
+                calls (reused as returned), the same entry on both sides, Polygon.Clone() of an entry, empty results fed
+                back in; after every call the whole pool is compared with a snapshot and the result is overwritten to
+                detect shared memory; every step is validated by `validateLattice` on the exact returned values;
   corpus        corpus/C05/*.ops (fixed enumerated degenerate inputs and boundary cases), both modes;
                 corpus/C05/degenerate.known.ops are the KNOWN FINDINGS on degenerate lattice inputs (panics, wrong
                 regions): each must be matched by an entry of known_findings.json (KNOWN-FINDING, exit 0), every other
@@ -36,8 +40,10 @@ N_CALLS = {
     "lattice": {"quick": 60000, "thorough": 2400000},
     "general": {"quick": 6000, "thorough": 200000},
     # LARGE inputs (deep scan-beam tree / long active edge table); each call costs 0.1-1.5 s of oracle time
-    "biglattice": {"quick": 32, "thorough": 1600},
+    "biglattice": {"quick": 64, "thorough": 3200},
     "biggeneral": {"quick": 48, "thorough": 4000},
+    # chains of 3-5 calls that reuse results (and clones, the same entry twice, empty results) as operands; lattice
+    "chain": {"quick": 8000, "thorough": 400000},
 }
 
 
@@ -56,8 +62,10 @@ def _validate(ctx, area, lines, extra_env=None):
 def _operands_nonempty(line):
     # "... A <nc> ... B <nc> ..."
     w = line.split()
+    if w and w[0] == "chain":
+        return True
     try:
-        return w[w.index("A") + 1] != "0" and w[w.index("B") + 1] != "0"
+        return w[w.index("A") + 1] not in ("0", "nil") and w[w.index("B") + 1] not in ("0", "nil")
     except (ValueError, IndexError):
         return False
 
@@ -75,7 +83,7 @@ def _summarise(area, tag, triples):
             continue
         if verdict is not None and verdict.startswith("valid "):
             j = int(verdict.split()[1])
-            S["programs"] += 1
+            S["programs"] += line.count(" S ") if area == "chain" else 1  # a chain line is several clipper calls
             S["judgements"] += j
             if out == "R 0":
                 S["empty_results"] += 1
@@ -184,31 +192,36 @@ def run(ctx):
         return _replay(ctx)
 
     if ctx.tier == "quick":
-        shards = {"lattice": 8, "general": 16, "biglattice": 8, "biggeneral": 8}
+        shards = {"lattice": 8, "general": 16, "biglattice": 8, "biggeneral": 8, "chain": 4}
     else:
-        shards = {"lattice": 32, "general": 96, "biglattice": 32, "biggeneral": 32}
+        shards = {"lattice": 32, "general": 96, "biglattice": 32, "biggeneral": 32, "chain": 32}
     jobs = []
     chunk = {"biglattice": 1, "biggeneral": 2}  # the large corpus calls cost about a second of oracle time each
-    for area in ("biglattice", "biggeneral", "lattice", "general", "degenerate"):
+    for area in ("biglattice", "biggeneral", "lattice", "general", "chain", "degenerate"):
         c = ctx.corpus(area)
         n = chunk.get(area, 100)  # chunks: the degenerate corpus lines carry many sample points
         for k in range(0, len(c), n):
             jobs.append((area, "corpus%d" % (k // n), c[k:k + n], None, 0))
-    for area in ("biglattice", "biggeneral", "general", "lattice"):  # long jobs first
+    for area in ("biglattice", "biggeneral", "general", "lattice", "chain"):  # long jobs first
         per = max(1, N_CALLS[area][ctx.tier] // shards[area])
         for i in range(shards[area]):
             jobs.append((area, "seed%d" % (ctx.seed * 1000003 + i), None, ctx.seed * 1000003 + i, per))
 
-    # observation only (OUTSIDE the judged domain and outside every count): random degenerate lattice inputs
-    n_obs = 1200 if ctx.tier == "quick" else 12000
-    obs_jobs = [("degenerate", "observe%d" % i, None, ctx.seed * 1000003 + 500 + i, n_obs // 6) for i in range(6)]
+    # observation only (OUTSIDE the judged domain and outside every count): random degenerate lattice inputs, and the
+    # regular families scaled by 2^-20 (all distances below the clipper's absolute epsilon of 1e-5)
+    q = ctx.tier == "quick"
+    obs_jobs = []
+    for area, total, parts in (("degenerate", 1200 if q else 12000, 6), ("tinygeneral", 300 if q else 3000, 3),
+                               ("tinylattice", 1500 if q else 15000, 1)):
+        for i in range(parts):
+            obs_jobs.append((area, "observe%d" % i, None, ctx.seed * 1000003 + 500 + i, total // parts))
 
     def observe(job):
         area, tag, _, seed, per = job
         lines = ctx.gen(area, seed, per)
         triples = _validate(ctx, area, lines) or []
         rej = [(l, o, v) for l, o, v in triples if not (v or "").startswith("valid ")]
-        return (len(triples), len(rej), sum(1 for _, o, _ in rej if o == "panic"))
+        return (area, len(triples), len(rej), sum(1 for _, o, _ in rej if o == "panic"))
 
     def work(job):
         area, tag, lines, seed, per = job
@@ -225,13 +238,21 @@ def run(ctx):
         obs_f = [ex.submit(observe, j) for j in obs_jobs]
         results = list(ex.map(work, jobs))
         obs = [f.result() for f in obs_f]
-    ctx.extra["observation_random_degenerate_lattice"] = {
-        "calls": sum(o[0] for o in obs), "rejected_by_oracle": sum(o[1] for o in obs),
-        "of_which_panics": sum(o[2] for o in obs),
-        "note": "random NON-rectilinear polygons with vertices on a small integer lattice (shared vertices, vertices on "
-                "edges, coincident slanted edges); outside the property's quantifier, not part of programs / "
-                "evaluations / violations; see the known findings of corpus/C05/degenerate.known.ops"}
-
+    notes = {
+        "degenerate": "random NON-rectilinear polygons with vertices on a small integer lattice (shared vertices, vertices "
+                      "on edges, coincident slanted edges); outside the property's quantifier; see the known findings of "
+                      "corpus/C05/degenerate.known.ops",
+        "tinygeneral": "the general-position family scaled by 2^-20 (coordinates about 1e-5): every distance is below "
+                       "the clipper's ABSOLUTE epsilon 1e-5, so no margin of general position holds",
+        "tinylattice": "the lattice family scaled by 2^-20 (lattice unit about 1e-6 < epsilon 1e-5)",
+    }
+    for area, key in (("degenerate", "observation_random_degenerate_lattice"),
+                      ("tinygeneral", "observation_general_scaled_below_epsilon"),
+                      ("tinylattice", "observation_lattice_scaled_below_epsilon")):
+        sel = [o for o in obs if o[0] == area]
+        ctx.extra[key] = {"calls": sum(o[1] for o in sel), "rejected_by_oracle": sum(o[2] for o in sel),
+                          "of_which_panics": sum(o[3] for o in sel),
+                          "note": notes[area] + "; not part of programs / evaluations / violations"}
     counters = {"programs": 0, "judgements": 0, "empty_results": 0, "reported": 0, "suppressed": 0}
     for S in results:
         if "failed" in S:
